@@ -212,7 +212,7 @@ static void do_bytes(const std::vector<uint8_t> &in, FILE *out) {
     const char *m = (const char *)fb.p;
     JW w; w.obj().kstr("k", "bytes").kbytes("bytes", in);
     long long mlen = -1; bool valid = false;
-    int sig1 = vg_run(2, [&] { mlen = (long long)rtosc_message_length(m, n); valid = rtosc_valid_message_p(m, n); });
+    int sig1 = vg_run_ms(250, [&] { mlen = (long long)rtosc_message_length(m, n); valid = rtosc_valid_message_p(m, n); });
     w.knum("mlen", mlen).kbool("valid", valid && !sig1).knum("sig_v", sig1).knum("asan_v", vg_asan_hits).kstr("what_v", vg_asan_first);
     if (valid && !sig1) {
         JW a; int sig2 = vg_run(2, [&] {
